@@ -217,6 +217,8 @@ func newKeyperDB(s Setup) *pgxpool.Pool {
 // crashSentinel is the private panic value of an injected crash.
 type crashSentinel struct{ where string }
 
+var errInjected = errors.New("shmx: injected failure (connection reset by peer)")
+
 var errDead = errors.New("shmx: the keyper process is dead (round trip after an injected crash)")
 
 // CrashPoint names one instant in the life of a keyper.
@@ -231,6 +233,11 @@ type CrashPoint struct {
 	// After: the request was applied but the reply is lost. Otherwise the
 	// process dies before the request is sent.
 	After bool `json:"after,omitempty"`
+	// Err: no crash; the round trip / call fails with an error (database: the
+	// request is refused unapplied; rpc: a network error before the call or, with
+	// After, after the chain executed it). The process lives and keeps its
+	// in-memory objects.
+	Err bool `json:"err,omitempty"`
 }
 
 func (c CrashPoint) String() string {
@@ -241,6 +248,9 @@ func (c CrashPoint) String() string {
 	m := "before it is sent"
 	if c.After {
 		m = "after it was applied, reply lost"
+	}
+	if c.Err {
+		m = "fails with an error (" + m + ")"
 	}
 	r := ""
 	if c.Rel {
@@ -266,6 +276,7 @@ type Keyper struct {
 
 	Restarts int
 	Crashes  []string // description of every injected crash that fired
+	Injected []string // description of every injected error that fired
 	Errors   []string // errors returned by steps
 	Panics   []string // genuine panics / log.Fatal of the keyper code
 
@@ -278,6 +289,8 @@ type Keyper struct {
 	OnCommit func(k *Keyper)
 	// OnRestart, if set, is called after the in-memory objects were rebuilt.
 	OnRestart func(k *Keyper)
+	// OnError, if set, is called when an iteration ended with an injected error.
+	OnError func(k *Keyper)
 	// RoundTrips logs kind+table of every round trip when LogRoundTrips is set.
 	LogRoundTrips bool
 	RTLog         []string
@@ -353,6 +366,11 @@ func (k *Keyper) before(rt minipg.RoundTrip) error {
 		k.RTLog = append(k.RTLog, rt.Kind+" "+sqlHead(rt.SQL))
 	}
 	if a := k.armed; a != nil && !a.RPC && !a.After && a.Seq == rt.Seq {
+		if a.Err {
+			k.Injected = append(k.Injected, fmt.Sprintf("db round trip %d (%s %s) fails", rt.Seq, rt.Kind, sqlHead(rt.SQL)))
+			k.armNext()
+			return errInjected
+		}
 		k.fire(fmt.Sprintf("before db round trip %d (%s %s)", rt.Seq, rt.Kind, sqlHead(rt.SQL)))
 	}
 	return nil
@@ -373,17 +391,24 @@ func (k *Keyper) onCommit(_ *minipg.DB) {
 	}
 }
 
-func (k *Keyper) rpcFault(call RPCCall, applied bool) {
+func (k *Keyper) rpcFault(call RPCCall, applied bool) error {
 	if k.dead {
 		// a dead process makes no calls; this is Go unwinding through defers
-		return
+		return errDead
 	}
 	if a := k.armed; a != nil && a.RPC && a.After == applied && a.Seq == call.Seq {
+		when := "before"
 		if applied {
-			k.fire(fmt.Sprintf("after rpc call %d (%s) was executed", call.Seq, call.Method))
+			when = "after the chain executed"
 		}
-		k.fire(fmt.Sprintf("before rpc call %d (%s)", call.Seq, call.Method))
+		if a.Err {
+			k.Injected = append(k.Injected, fmt.Sprintf("%s rpc call %d (%s): network error", when, call.Seq, call.Method))
+			k.armNext()
+			return errInjected
+		}
+		k.fire(fmt.Sprintf("%s rpc call %d (%s)", when, call.Seq, call.Method))
 	}
+	return nil
 }
 
 func sqlHead(sql string) string {
@@ -400,9 +425,10 @@ func sqlHead(sql string) string {
 
 // StepResult says how one iteration of operateShuttermint ended.
 type StepResult struct {
-	Crashed bool   // an injected crash fired; the keyper was restarted
-	Err     string // the iteration returned an error (operateShuttermint would end)
-	Panic   string // a genuine panic or log.Fatal in the keyper code
+	Crashed  bool   // an injected crash fired; the keyper was restarted
+	Err      string // the iteration returned an error (operateShuttermint would end)
+	Injected bool   // the error is an injected failure; the keyper keeps its objects
+	Panic    string // a genuine panic or log.Fatal in the keyper code
 }
 
 // Step is one iteration of KeyperCore.operateShuttermint: SyncAppWithDB,
@@ -430,6 +456,7 @@ func (k *Keyper) Step(l1 uint64) (res StepResult) {
 		}
 		k.Restart()
 	}()
+	injectedBefore := len(k.Injected)
 	err := smobserver.SyncAppWithDB(ctx, k.Client, k.Pool, k.state)
 	if err == nil {
 		err = k.Pool.BeginFunc(ctx, func(tx pgx.Tx) error {
@@ -439,8 +466,19 @@ func (k *Keyper) Step(l1 uint64) (res StepResult) {
 	if err == nil {
 		err = fx.SendShutterMessages(ctx, kprdatabase.New(k.Pool), &k.sender)
 	}
+	// An injected failure ended or disturbed this iteration (the keyper's code
+	// may have swallowed it and retried nothing, or a later statement of the same
+	// transaction failed with 25P02): the caller re-enters the loop with the same
+	// objects. ShuttermintState's contract for that is Invalidate on error + reload.
+	res.Injected = len(k.Injected) > injectedBefore
 	if err != nil {
 		res.Err = firstLine(err.Error())
+		if res.Injected {
+			if k.OnError != nil {
+				k.OnError(k)
+			}
+			return res
+		}
 		k.Errors = append(k.Errors, res.Err)
 		k.Restart()
 	}
